@@ -340,4 +340,40 @@ theorem parseLR_direct_eq_iterative_partial {g : Grammar} {E m sq b : Nat} {ts :
   rw [key']
   exact idxConv_of_ne nE s.length pre _ (enhFix_ne_idx pre _ (iterRef_ne_idx _ _ _ _ _ _))
 
+/-! ### non-vacuity on a node table: `E <<= E + '+' + '1' | '1'` with the flags of the live objects
+    (`skipWhitespace`, `callPreparse` on everywhere), input "1+1 +1" -/
+def exNode (k : Kind) : Node :=
+  { kind := k, skipWs := true, white := [' ', '\n', '\t', '\r'], callPre := true, mayIdx := false, ignore := [],
+    acts := [], callDuringTry := false, nameLen := 1 }
+
+def exG : Grammar :=
+  [exNode (.forward (some 1)), exNode (.matchFirst [2, 4]), exNode (.and [0, 3, 4]), exNode (.lit1 '+'), exNode (.lit1 '1')]
+
+def exS : List Char := ['1', '+', '1', ' ', '+', '1']
+
+example : parseLR exG exS 6 [] 0 0 false true = .ok 6 [.s ['1'], .s ['+'], .s ['1'], .s ['+'], .s ['1']] := by rfl
+
+theorem exG_direct : DirectLR exG 0 1 2 4 [3, 4] (exNode (.forward (some 1))) (exNode (.matchFirst [2, 4]))
+    (exNode (.and [0, 3, 4])) :=
+  ⟨rfl, rfl, rfl, rfl, rfl, rfl, rfl, rfl, rfl⟩
+
+theorem exG_fwdFree : FwdFree exG (fun i => i = 3 ∨ i = 4) where
+  present := by intro i hi; rcases hi with rfl | rfl <;> exact ⟨_, rfl⟩
+  closed := by
+    intro i n hi hn c hc
+    rcases hi with rfl | rfl <;> (cases hn; simp [Node.children, Kind.children, exNode] at hc)
+  noFwd := by
+    intro i n e hi hn
+    rcases hi with rfl | rfl <;> (cases hn; simp [exNode])
+
+/-- every hypothesis of `parseLR_direct_eq_iterative_partial` holds for it (the tail starts with the operator literal,
+    so it strictly advances: `tailOf_strict`, `parse_lit1_strict`) -/
+example : parseLR exG exS 6 [] 0 0 false true
+    = enhFix 0 (iterRef exS.length 0 (baseOf exG exS 4 4 0) (tailOf exG exS 3 [3, 4]) false (exS.length + 1)) :=
+  parseLR_direct_eq_iterative_partial exG_direct exS exG_fwdFree (Or.inr rfl)
+    (by intro t ht; simp at ht; exact ht) 2 [] 0 0 false true rfl (fun _ => rfl) rfl
+    (fun e e' ts' _ h => tailOf_strict exG exS 3 3 [4] rfl
+      (parse_lit1_strict exG exS 2 3 _ '+' rfl rfl) false e e' ts' h)
+    (by intro h; cases h) (by intro h; cases h)
+
 end PP.Parse
